@@ -639,6 +639,17 @@ class Explorer:
         modname = info.module.name if info else None
         cls = info.cls if info else None
         for k, v in c.overrides.items():
+            if '@' in k:
+                # 'e.args@UnaryOp': the override applies only in the cases where the split parameter `e` is an
+                # instance of the named class (a dispatch contract over classes whose fields have different shapes)
+                k, _, guard = k.partition('@')
+                root = k.split('.')[0]
+                ok = False
+                if root in case and case[root][0] == 'alt' and root in c.params:
+                    a = self.types.parse_str(c.params[root], modname, cls)[1][case[root][1]]
+                    ok = a[0] == 'obj' and any(m.name == guard for m in self.index.mro(a[1]))
+                if not ok:
+                    continue
             self.overrides[k] = self.types.parse_str(v, modname, cls)
             if k in case and case[k][0] == 'alt':          # case split on an overridden field type
                 self.overrides[k] = self.overrides[k][1][case[k][1]]
